@@ -62,3 +62,22 @@ PROPS["C01"] = dict(
             "thorough": "synthetic: <=3 intermediate levels full product (+4 levels restricted); fixtures and U_small additionally with deviation bound 2 and all 256 flag words"},
     assumptions=COMMON_ASSUMPTIONS + ["distinct states are counted per worker"],
 )
+
+
+PROPS["C04"] = dict(
+    level_text="Exhaustive within bounds: every bitmap of the boundary family x 3 formats x every buffer length, and every "
+               "parser input of the small-scope alphabet plus every single-character mutation of printed texts, executed on the "
+               "real functions with exact-size heap buffers under ASan; round trips judged through the reference set model and "
+               "an independent reference parser of the documented grammars.",
+    technique="bounded-exhaustive input enumeration on the real code (small-scope), reference model + reference parser oracle",
+    design_ref="DESIGN.md 5 (C04)",
+    # indexes such as 4294967288 (list "1 -8") would make the library allocate 512 MB per input: let such
+    # allocations fail (the library's ENOMEM paths) instead of spending the budget in memset
+    stages=[simple("str", "c04_bitmap_str", deadline={"quick": 240, "thorough": 3000}, env={"ASAN_OPTIONS": "max_allocation_size_mb=64"})],
+    explanation="All subsets of 12 (16 thorough) boundary bit positions x 6 tails x 2 representations are printed in the three "
+                "formats at every buffer length 0..needed+2 and with NULL/0; texts are parsed back by hwloc and by a reference parser. "
+                "All strings of length <= 5 (6) over {0 1 8 f x , - . space 0x80} and all single-character mutations of printed texts are "
+                "given to the three parsers as exact-size heap copies.",
+    bounds={"quick": "12 bit positions, strings <= 5 letters, mutations of every 8th printed text", "thorough": "16 bit positions, strings <= 6 letters, mutations of every printed text"},
+    assumptions=COMMON_ASSUMPTIONS + ["bit indexes are below 640", "strings outside the documented grammar may be accepted or rejected; only safety and print/parse stability are demanded of them"],
+)
